@@ -37,6 +37,10 @@ def dep():
                 {"script": [{"src": "a.js"}], "source": {"href": "http://h/"}},
                 {"meta": [{"name": "m", "content": "c"}]},
                 {"stylesheet": {"href": "s.css"}, "source": {"href": "/p"}},
+                # definitions that carry (almost) nothing: no payload at all, an empty head, empty item lists
+                {"bare": "none"},
+                {"bare": "empty-head"},
+                {"bare": "empty-lists"},
             ]
         ),
     )
@@ -82,7 +86,15 @@ def assign_uids(nodes, counter=None):
     out = []
     for n in nodes:
         if n["k"] == "dep":
-            out.append(dict(n, head="<!--uid%d-->" % counter[0]))
+            n = dict(n, uid=counter[0])
+            bare = n.pop("bare", None)
+            if bare is None:
+                n["head"] = "<!--uid%d-->" % counter[0]
+            elif bare == "empty-head":
+                n["head"] = []
+            elif bare == "empty-lists":
+                n.update(head=[{"k": "none"}], script=[], stylesheet=[], meta=[])
+            out.append(n)
             counter[0] += 1
         elif n["k"] in ("tag", "list"):
             out.append(dict(n, kids=assign_uids(n["kids"], counter)))
@@ -95,7 +107,7 @@ def _mark_shared(nodes):
     out = []
     for n in nodes:
         if n["k"] == "dep":
-            out.append(dict(n, share=n["head"]))
+            out.append(dict(n, share="u%d" % n["uid"]))
         elif n["k"] in ("tag", "list"):
             out.append(dict(n, kids=_mark_shared(n["kids"])))
         else:
@@ -103,30 +115,56 @@ def _mark_shared(nodes):
     return out
 
 
+_UIDS: dict = {}  # id(dependency object) -> uid of its recipe, for the tree of the current case
+
+
 def uid(dep_obj) -> int:
-    s = dep_obj.head.get_html_string()
-    return int(s[len("<!--uid") : -len("-->")])
+    return _UIDS.get(id(dep_obj), -1)
+
+
+def _own_walk(objs, out):
+    """dependency objects in document order (own traversal of the public child lists)"""
+    import htmltools as h
+
+    for o in objs:
+        if isinstance(o, h.HTMLDependency):
+            out.append(o)
+        elif isinstance(o, h.Tag):
+            _own_walk(list(o.children), out)
+        elif isinstance(o, (list, tuple, h.TagList)):
+            _own_walk(list(o), out)
+    return out
 
 
 def body_resolve(case, note):
     import htmltools as h
 
-    roots = assign_uids(case["roots"])
+    # the forest repeated: many dependencies (size-triggered paths), at most ~260 so that a case stays cheap
+    mult = min(case.get("mult", 1), max(1, 260 // max(1, len(D.preorder(case["roots"])))))
+    roots = assign_uids(case["roots"] * mult)
     if case.get("repeat"):
         roots = repeat_some(_mark_shared(roots), case["repeat"])
     pre = D.preorder(roots)
     memo: dict = {}
     objs = [build(r, memo) for r in roots]
     tl = h.TagList(*objs)
+    pre_uids = [d["uid"] for d in pre]
+    placed = _own_walk(list(tl), [])
+    check(len(placed) == len(pre), "the tree does not hold the dependencies it was built from", len(pre), len(placed))
+    _UIDS.clear()
+    for o, d in zip(placed, pre):
+        check(_UIDS.setdefault(id(o), d["uid"]) == d["uid"], "harness: object / recipe walk out of step")
+        check(o.name == d["name"], "harness: object / recipe walk out of step (name)")
     raw = tl.get_dependencies(dedup=False)
-    pre_uids = [int(d["head"][len("<!--uid") : -len("-->")]) for d in pre]
     check([uid(d) for d in raw] == pre_uids, "get_dependencies(dedup=False) dropped or reordered dependencies", pre_uids, [uid(d) for d in raw])
     want = [pre_uids[pre.index(d)] for d in D.resolve(pre)]
     got = tl.get_dependencies()
     check([uid(d) for d in got] == want, "get_dependencies() does not keep one per name / highest version / earliest on ties / first-occurrence order", _desc(pre, want), _desc(pre, [uid(d) for d in got]))
     check(all(any(g is r for r in raw) for g in got), "resolved dependencies are not the collected objects themselves")
     rd = tl.render()["dependencies"]
-    check([uid(d) for d in rd] == want, "render()['dependencies'] differs from the resolved list", want, [uid(d) for d in rd])
+    # render() works on a copy of the tree: its dependencies are compared by value with the resolved objects
+    want_objs = [placed[pre_uids.index(u)] for u in want]
+    check([S.snap(d) for d in rd] == [S.snap(d) for d in want_objs], "render()['dependencies'] differs from the resolved list (by value)", _desc(pre, want), [(d.name, str(d.version)) for d in rd])
     check([S.snap(d) for d in rd] == [S.snap(d) for d in got], "render()['dependencies'] are not value-equal to the resolved objects")
     again = h.TagList(*got).get_dependencies()
     check(len(again) == len(got) and all(a is b for a, b in zip(again, got)), "resolution is not idempotent")
@@ -151,7 +189,8 @@ def body_resolve(case, note):
                     tie = True
                 elif (ka < kb) != (a < b):
                     lexdis = True
-    note(tie or lexdis, "same-object-repeated" if case.get("repeat") and len(pre_uids) > len(set(pre_uids)) else "", "tie" if tie else "", "lexical-vs-numeric" if lexdis else "", "nested-depth" if any(n["k"] in ("tag", "list") for n in roots) else "", "suffix" if any(not d["version"].replace(".", "").isdigit() for d in pre) else "")
+    note(tie or lexdis, "same-object-repeated" if case.get("repeat") and len(pre_uids) > len(set(pre_uids)) else "", "tie" if tie else "", "lexical-vs-numeric" if lexdis else "", "nested-depth" if any(n["k"] in ("tag", "list") for n in roots) else "", "suffix" if any(not d["version"].replace(".", "").isdigit() for d in pre) else "",
+         "more-than-64-dependencies" if len(pre) > 64 else "", "more-than-200-dependencies" if len(pre) > 200 else "", "bare-definition" if any("head" not in d or d["head"] == [] or d.get("script") == [] for d in pre) else "")
 
 
 def _desc(pre, idx):
@@ -294,7 +333,16 @@ RULE = (
 )
 
 CLAUSES = [
-    Clause("resolve", body_resolve, strategy=lambda: st.fixed_dictionaries({"roots": tree(), "repeat": st.one_of(st.just(0), st.integers(1, 10**6))}), quick=900, thorough=12000, shards_quick=4, required=("tie", "lexical-vs-numeric", "nested-depth", "suffix", "same-object-repeated"), rule="see RULE"),
+    Clause(
+        "resolve",
+        body_resolve,
+        strategy=lambda: st.fixed_dictionaries({"roots": tree(), "repeat": st.one_of(st.just(0), st.integers(1, 10**6)), "mult": st.sampled_from([1] * 12 + [3, 12, 40, 150])}),
+        quick=900,
+        thorough=12000,
+        shards_quick=4,
+        required=("tie", "lexical-vs-numeric", "nested-depth", "suffix", "same-object-repeated", "more-than-64-dependencies", "more-than-200-dependencies", "bare-definition"),
+        rule="see RULE",
+    ),
     Clause("single", body_single, strategy=single_case, quick=400, thorough=3000, shards_quick=1, shards_thorough=4, rule=">=2 of script/stylesheet/meta given"),
     Clause(
         "invalid",
